@@ -4650,13 +4650,13 @@ func (t *Terminal) Loop() error {
 							reapChan <- true
 						}(version)
 
-						<-eofChan  // Goroutine 1 finished
-						cmd.Wait() // NOTE: We should not call Wait before EOF
-						t.setPreviewKiller(nil)
+						<-eofChan          // Goroutine 1 finished
+						cmd.Wait()         // NOTE: We should not call Wait before EOF
 						finishChan <- true // Tell Goroutine 3 to stop
 						<-reapChan         // Goroutine 2 and 3 finished
 						<-reapChan
 						removeFiles(tempFiles)
+						t.setPreviewKiller(nil)
 					} else {
 						// Failed to start the command. Report the error immediately.
 						removeFiles(tempFiles)
